@@ -29,9 +29,11 @@ ParameterEvent::ParameterEvent(Parameter* parameter) : parameter_(parameter) {}
 /** Constructors: *************************************************************/
 
 Parameter::Parameter(const std::string& name, double value, std::shared_ptr<ConstraintInterface> constraint, double precision) :
-  name_(name), value_(0), precision_(0), constraint_(constraint), listeners_()
+  name_(name), value_(value), precision_(0), constraint_(constraint), listeners_()
 {
-  setValue(value);
+  // The initial value must be checked whatever it is (setValue() would skip the check for a value equal to the default one):
+  if (constraint_ && !constraint_->isCorrect(value_))
+    throw ConstraintException("Parameter::Parameter", this, value_);
   setPrecision(precision);
   BPP_CORE_VERIF_AUDIT("value-ctor");
 }
